@@ -105,6 +105,30 @@ fn concat_by_id(chunks: &[Chunk]) -> Vec<u8> {
 /// packet must pass the C05 oracles, including re-encoding to the concatenation).
 pub fn run_impl(chunks: Vec<Chunk>) -> (String, Option<String>) {
     let concat = concat_by_id(&chunks);
+    // the version-dispatching entry point the event builder uses must give the same verdict as the
+    // V2 entry point on the same list (seed C04-10 read the version from the first-ARRIVED chunk)
+    let outer = {
+        let cs = chunks.clone();
+        match guarded(move || alpha_g_detector::padwing::PwbPacket::try_from(cs)) {
+            Err(msg) => format!("panic {msg}"),
+            Ok(Err(e)) => format!("err {}", cerr_name(&e)),
+            Ok(Ok(_)) => "ok".to_string(),
+        }
+    };
+    let (line, why) = run_impl_v2(chunks, &concat);
+    let inner = if line.starts_with("err") || line.starts_with("panic") { line.clone() } else { "ok".to_string() };
+    let why = why.or_else(|| {
+        if inner != outer {
+            Some(format!("PwbPacket::try_from(chunks) says `{outer}`, PwbV2Packet::try_from(chunks) says `{inner}` for the same list"))
+        } else {
+            None
+        }
+    });
+    (line, why)
+}
+
+fn run_impl_v2(chunks: Vec<Chunk>, concat: &[u8]) -> (String, Option<String>) {
+    let concat = concat.to_vec();
     match guarded(move || PwbV2Packet::try_from(chunks)) {
         Err(msg) => (format!("panic {msg}"), Some(format!("reassembly panicked: {msg}"))),
         Ok(Err(e)) => (format!("err {}", cerr_name(&e)), None),
